@@ -73,16 +73,29 @@ _ASAN_RE = re.compile(r'ERROR: AddressSanitizer: (\S+)')
 _UBSAN_RE = re.compile(r'^(\S+?):(\d+):(\d+): runtime error: (.*)$', re.M)
 
 
+# generic string helpers of the tree: a report inside them is attributed to their caller (many call sites share them)
+_HELPER_FILES = ('strutil.c', 'dynstr.c', 'nonzstring.c', 'strcomp.c', 'stringlists.c', 'nls.c')
+
+
 def _repo_frame(text):
-    """innermost stack frame that lies in the tree under test: (function, file)"""
+    """innermost stack frame that lies in the tree under test, string helpers skipped: (function, file)"""
+    first = (None, None)
+    stacks = 0
     for m in _FRAME_RE.finditer(text):
+        if m.group(1) == '0':
+            stacks += 1
+            if stacks > 1:
+                break          # only the stack of the faulting access
         func, path = m.group(2), m.group(3)
         base = os.path.basename(path)
-        if path.startswith(build.REPO + '/') or (base.endswith(('.c', '.h')) and '/' not in path):
-            return func, base
-        if base.endswith('.c') and os.path.exists(os.path.join(build.REPO, base)):
-            return func, base
-    return None, None
+        hit = path.startswith(build.REPO + '/') or (base.endswith(('.c', '.h')) and '/' not in path) or \
+            (base.endswith('.c') and os.path.exists(os.path.join(build.REPO, base)))
+        if hit:
+            if first[0] is None:
+                first = (func, base)
+            if base not in _HELPER_FILES:
+                return func, base
+    return first
 
 
 def crash_key(run):
